@@ -75,6 +75,7 @@ def run(repo, rep):
     rule_trial_state(repo, rep)
     rep.clause("C05-h", "HillClimb: the search runs only on allocations strictly above the peak live sum (its candidate selection needs a bottleneck above address 0)")
     rule_search_precondition(repo, rep)
+    rule_mark_usage_closed(repo, rep)
     from .shared import duplicate_branch_lint
 
     duplicate_branch_lint(repo, rep, "C05-c", ['tensor_allocation', 'greedy_allocation', 'hillclimb_allocation', 'live_range'])
@@ -516,6 +517,22 @@ def rule_search_precondition(repo, rep):
     want2 = comparison(ast.parse("self.best_size <= self.min_required_size", mode="eval").body)
     rep.check(len(rets) == 1 and comparison(rets[0].test) == want2, "C05-h", "ethosu/vela/hillclimb_allocation.py:HillClimbAllocator.search", "search() returns as soon as best_size <= min_required_size",
               f"{[str(norm(i.test)) for i in rets]}")
+
+
+
+def rule_mark_usage_closed(repo, rep):
+    """(b') LiveRange.mark_usage(t, length) registers the closed interval [t, t + length]; length 0 is 'in use for exactly step t' (the
+    double-buffered weight buffer that is neither used last nor pre-fetched). Only a negative length is an empty usage: the early return
+    tests `end < start` strictly."""
+    lr = repo.mod("live_range")
+    f = lr.func("LiveRange.mark_usage")
+    site = "ethosu/vela/live_range.py:LiveRange.mark_usage"
+    guards = [i for i in ast.walk(f) if isinstance(i, ast.If) and i.body and isinstance(i.body[0], ast.Return) and "op_time_end" in str(norm(i.test))]
+    if len(guards) != 1:
+        raise AnalysisError(f"LiveRange.mark_usage: {len(guards)} empty-interval guards")
+    want = comparison(ast.parse("op_time_end < op_time_start", mode="eval").body)
+    rep.check(comparison(guards[0].test) == want, "C05-b", site, "only an interval with end < start is empty (a usage of length 0 is one time step)",
+              f"`{str(norm(guards[0].test))}`: a length-0 usage is dropped; a range with only such usages is alive nowhere and is placed at address 0 on top of buffers in use at that step (conv1_weights_buf0 [0,2048) over ifm [0,4096))")
 
 
 def _canon(form):
